@@ -606,8 +606,9 @@ REFUSE_OPS = ("add", "subtract", "dot", "cross", "equal", "project", "reject")
 NONCART_OPS = ("add", "subtract", "cross", "reject")
 COMBOS = ("cartA|cartB", "cart|cyl_child", "cart|sph_child", "cyl_child|cart", "sph_child|cart", "cyl_child|sph_child",
     "cylA|cylB", "sphA|sphB", "cyl|cyl", "sph|sph", "cart|cyl_free", "cyl_parent|cart_child",
-    # distinct CoordinateSystem objects built (public constructor) around the SAME inner SymPy system
-    "cart|cart_same_inner", "cart|cyl_same_inner", "cyl_same_inner|cart", "cart|sph_same_inner")
+    # system objects of DIFFERENT type built (public constructor) around the same inner SymPy system; two objects of the
+    # same type around one inner system are the same coordinate system geometrically and are not judged either way
+    "cart|cyl_same_inner", "cyl_same_inner|cart", "cart|sph_same_inner")
 _LEN_PAIRS = [(i, j) for i in range(4) for j in range(4)]
 
 
